@@ -20,6 +20,9 @@ def main():
     from workloads import tl as TL
 
     mon = ExportMonitor().install()
+    from vmon.budget import ensure_tick_budget
+
+    ensure_tick_budget()
     from labella.timeline import TimelineSVG, TimelineTex
 
     tls = {}
